@@ -313,7 +313,7 @@ def payload_rule(syn, prop, rule="C14.R2"):
     for e in templates(fn):
         if not any(c["k"] == "let" and c["id"] == lid for c in e["ctx"]):
             continue
-        ints = set(S.interpolations(e["tokens"]))
+        ints = set(S.interpolations(S.strip_wrappers(e["tokens"])))
         extra = ints - allowed
         has_payload = payload in ints
         n += has_payload
@@ -792,7 +792,7 @@ def variant_matrix_rule(syn, prop, rule="C01.R3"):
                     if unrec:
                         n_unrec += 1
                         continue
-                    got = [set(S.interpolations(e["tokens"])) for e in active]
+                    got = [set(S.interpolations(S.strip_wrappers(e["tokens"]))) for e in active]
                     ok = len(active) == 1 and got[0] == want
                     # literal skeleton and argument order of the selected template
                     if ok and not (U or T == "Untagged" or (T == "Internally" and F == "Named" and O == "none")):
@@ -802,7 +802,7 @@ def variant_matrix_rule(syn, prop, rule="C01.R3"):
                                 ("Internally", False): '{{"{}":"{}"}}', ("Internally", True): '{{"{}":"{}"}}&{}'}[(T, with_payload)]
                         order = {"Externally": ["ts_name"], "Adjacently": ["tag", "ts_name"], "Internally": ["tag", "ts_name"]}[T] + \
                             ((["content"] if T == "Adjacently" else []) + [P] if with_payload else [])
-                        fc = S.format_calls(active[0]["tokens"])
+                        fc = S.format_calls(S.strip_wrappers(active[0]["tokens"]))
                         lit = S.squash(S.unquote(fc[0][0]) or "") if fc else None
                         args = ["".join(S.flat(a)).lstrip("#") for a in fc[0][1]] if fc else None
                         if lit != skel or args != order:
@@ -1997,7 +1997,7 @@ def intersection_operand_rule(syn, prop, rule):
     """`A & B | C` is `(A & B) | C`.  A type placed after ` & ` must therefore be atomic: an object, a name, or something in
     parentheses.  `inline_flattened()` is parenthesised by contract for unions (C14.R6); `inline()` / `name()` of an arbitrary
     type is not (an enum's inline() is `X | Y`, Option's name() is `T | null`)."""
-    r = Result(rule, "every operand the templates place after ` & ` is either assembled from inline_flattened() parts (parenthesised by contract), literally wrapped in `( )`, or an object literal; an arbitrary inline()/name() there lets `|` inside it escape the intersection")
+    r = Result(rule, "every operand the templates place after ` & ` is either assembled from inline_flattened() parts (parenthesised by contract), passed through intersection_operand() (which parenthesises unions), literally wrapped in `( )`, or an object literal; an arbitrary inline()/name() there lets `|` inside it escape the intersection")
     sites = {}
     n = 0
     for fn in syn.fns_in("macros/src/types/"):
@@ -2014,7 +2014,7 @@ def intersection_operand_rule(syn, prop, rule):
                         continue
                     n += 1
                     arg = " ".join(t for t in S.flat(args[i]) if isinstance(t, str)) if i < len(args) else "?"
-                    ok = arg in ("# flattened",)
+                    ok = arg in ("# flattened",) or re.match(r"^# crate_rename :: intersection_operand \( # \w+ \)$", arg) is not None
                     r.inst(fn=fn["qual"], literal=u, operand=arg, atomic=ok, where="%s:%s" % (fn["file"], e["line"]))
                     if not ok:
                         sites.setdefault((fn["qual"], arg), []).append((fn["file"], e["line"], u))
